@@ -298,7 +298,7 @@ def run_check(prop: str, tier: str, seed: int, replay: str | None = None) -> int
         "wall_s": round(wall, 2),
         "violations": len(unlisted) + (hidden if unlisted or not listed else 0),
     }
-    if not replay:
+    if not replay and not os.environ.get("VERIF_NO_EVIDENCE"):
         os.makedirs(os.path.join(VERIF, "evidence"), exist_ok=True)
         with open(os.path.join(VERIF, "evidence", f"{prop}.json"), "w") as fh:
             json.dump(evidence, fh, indent=1)
